@@ -74,13 +74,15 @@ def generate(rng, i, tier):
             big = [r for r in rows[1:] if r]
             if big:
                 rng.choice(big)[-1] = "x" * 140000
+        if rng.random() < 0.08:
+            rows = [[]] + rows  # a blank first physical line: the header row is the first line that has data
         files.append({"rows": rows, "classes": sorted({NASTY_CLASS[p] for p in picks}), "dialect": rng.choice([[",", '"']] * 3 + [[";", '"'], ["|", "'"]])})
     njobs = rng.randint(2, 6)
     jobs = []
     progs = []
     for j in range(njobs):
         fi = rng.randrange(nfiles)
-        ncol = len(files[fi]["rows"][0])
+        ncol = len(next(r for r in files[fi]["rows"] if r))
         if progs and rng.random() < 0.35:
             prev = rng.choice(jobs)
             if rng.random() < 0.5:
@@ -112,7 +114,16 @@ def generate(rng, i, tier):
                 "policy": rng.choice([["collect"], ["collect", "fail", "print"], ["stop", "collect"], ["print"]]) if kind == "direct" and rng.random() < 0.4 else None,
             }
         )
-    return {"seed": rng.getrandbits(32), "files": files, "jobs": jobs, "warm": rng.random() < 0.4, "policy": rng.choice([["collect", "print"], ["collect"], ["collect", "fail"], ["collect", "stop", "print"]])}
+    for j in range(1, len(jobs)):
+        if rng.random() < 0.12:
+            # the file at that path is REPLACED (other records, maybe another header row) before the job runs
+            fi = jobs[j]["file"]
+            old = files[fi]["rows"]
+            hdr = list(next(r for r in old if r))
+            if rng.random() < 0.4 and len(hdr) > 2:
+                hdr[1], hdr[-1] = hdr[-1], hdr[1]
+            jobs[j] = dict(jobs[j], rewrite=gen.gen_rows(rng, hdr=hdr, min_rec=1, max_rec=len(old) + 4, trailing_blank_p=0.1))
+    return {"seed": rng.getrandbits(32), "files": files, "jobs": jobs, "warm": rng.random() < 0.4, "tear": rng.choice([None, None, "csv", "json"]), "policy": rng.choice([["collect", "print"], ["collect"], ["collect", "fail"], ["collect", "stop", "print"]])}
 
 
 def reductions(sc):
@@ -120,6 +131,8 @@ def reductions(sc):
         yield with_(sc, jobs=cand)
     if sc["warm"]:
         yield with_(sc, warm=False)
+    if sc.get("tear"):
+        yield with_(sc, tear=None)
     for j, job in enumerate(sc["jobs"]):
         for mm in gen.member_reductions(job["member"]):
             c = with_(sc)
@@ -136,6 +149,10 @@ def reductions(sc):
         if job.get("policy"):
             c = with_(sc)
             c["jobs"][j]["policy"] = None
+            yield c
+        if job.get("rewrite"):
+            c = with_(sc)
+            del c["jobs"][j]["rewrite"]
             yield c
     for fi, f in enumerate(sc["files"]):
         for rows in gen.rows_reductions(f["rows"]):
@@ -233,7 +250,22 @@ def _history(root, seed, jobs, dialects):
     os.chdir(root)
     seams.reset(seed)
     extfuncs.arm()
-    return [run_job(job, n, dialects) for n, job in enumerate(jobs)]
+    res = []
+    for n, job in enumerate(jobs):
+        if job.get("rewrite"):
+            d = dialects[job["file"]]
+            _write_rows(f"src/f{job['file']}.csv", job["rewrite"], d)
+        res.append(run_job(job, n, dialects))
+    return res
+
+
+def _write_rows(path, rows, d):
+    import csv
+
+    with open(path, "w", newline="", encoding="utf-8") as f:
+        wr = csv.writer(f, delimiter=d[0], quotechar=d[1], lineterminator="\n")
+        for r in rows:
+            wr.writerow(r)
 
 
 def _warm(root, seed, nfiles, dialects):
@@ -284,13 +316,28 @@ def execute(sc):
         if sc["warm"]:
             fork_call(_warm, main.root, sc["seed"], len(sc["files"]), dialects)
             out.fault("warm_cache")
+            if sc.get("tear"):
+                # the earlier process died between the two writes of a cache entry (or one of the two files was lost):
+                # line counts without headers, or headers without line counts
+                cdir = os.path.join(main.root, "cache")
+                torn = [f for f in (os.listdir(cdir) if os.path.isdir(cdir) else []) if f.endswith("." + sc["tear"])]
+                for f in torn:
+                    os.remove(os.path.join(cdir, f))
+                if torn:
+                    out.fault("torn_cache_entry", len(torn))
+                    out.probe("cache with half of an entry missing")
         hist = fork_call(_history, main.root, sc["seed"], jobs, dialects)
         out.runs += len(jobs)
         seen_files = set()
+        current = with_(sc)  # the files as they are when job n starts
         for n, job in enumerate(jobs):
+            if job.get("rewrite"):
+                current["files"][job["file"]]["rows"] = job["rewrite"]
+                out.fault("file_replaced")
+                out.probe("file replaced between two jobs over the same path", job["file"] in seen_files)
             tw = W.World(csvpath_policy=sc["policy"]).create()
             twins.append(tw)
-            _populate(tw, sc)
+            _populate(tw, current)
             twin = fork_call(_history, tw.root, sc["seed"], [job], dialects)[0]
             out.runs += 1
             tw.destroy()
@@ -318,7 +365,7 @@ def execute(sc):
                 other = dict(job, kind="via" if job["kind"] == "direct" else "direct")
                 tw2 = W.World(csvpath_policy=sc["policy"]).create()
                 twins.append(tw2)
-                _populate(tw2, sc)
+                _populate(tw2, current)
                 twin2 = fork_call(_history, tw2.root, sc["seed"], [other], dialects)[0]
                 out.runs += 1
                 tw2.destroy()
@@ -336,7 +383,7 @@ def execute(sc):
 
                 tw3 = W.World(csvpath_policy=sc["policy"]).create()
                 twins.append(tw3)
-                _populate(tw3, sc)
+                _populate(tw3, current)
                 spec = os.path.join(tw3.root, "spec.json")
                 with open(spec, "w", encoding="utf-8") as f:
                     json.dump({"root": tw3.root, "seed": sc["seed"], "job": job, "dialects": dialects}, f)
@@ -361,7 +408,9 @@ def execute(sc):
                 break
         for a in range(len(jobs)):
             for b in range(a + 1, len(jobs)):
-                if jobs[a] == jobs[b] and a < len(hist) and b < len(hist) and _diff(hist[a], hist[b]):
+                same = {k_: v_ for k_, v_ in jobs[a].items() if k_ != "rewrite"} == {k_: v_ for k_, v_ in jobs[b].items() if k_ != "rewrite"}
+                replaced = any(jobs[x].get("rewrite") and jobs[x]["file"] == jobs[a]["file"] for x in range(a + 1, b + 1))
+                if same and not replaced and a < len(hist) and b < len(hist) and _diff(hist[a], hist[b]):
                     d = _diff(hist[a], hist[b])
                     out.v("repeat_differs", f"jobs {a} and {b} are the same job {gen.render(jobs[a]['member'])!r} but {d[0]} differs: {json.dumps(d[1], default=str)[:200]} vs {json.dumps(d[2], default=str)[:200]}", field=d[0])
         classes = sorted({c for f in sc["files"] for c in f["classes"]})
@@ -378,6 +427,8 @@ def execute(sc):
         out.probe("job that edits headers or the line in place", any(c.startswith(("append(", "replace(")) for j in jobs for c in j["member"]["comps"]))
         out.probe("file with a single record (the header)", any(len([r for r in f["rows"] if r]) == 1 and len(f["rows"]) == 1 for f in sc["files"]))
         out.probe("two jobs that differ only by blanks inside a string literal", any(ws_sibling(a["member"]) == b["member"] for a in jobs for b in jobs if a is not b))
+        out.probe("file replaced between two jobs over the same path", False)
+        out.probe("cache with half of an entry missing", False)
         out.probe("exact repeat of a job", any(jobs[a] == jobs[b] for a in range(len(jobs)) for b in range(a + 1, len(jobs))))
         out.extra["header_classes"] = classes
         out.log(hist, len(out.violations))
